@@ -1,10 +1,11 @@
 // vtranslate: T1 of /verif — regenerates, from the Go source of the tree under test, the part of the
 // Coq model that is plain data or plain integer arithmetic:
-//   * every integer constant of the listed packages (evaluated by go/types, iota and typed
+//   - every integer constant of the listed packages (evaluated by go/types, iota and typed
 //     constants included)                                              -> Consts.v
-//   * the right-hand sides of selected assignments and the conditions of selected if / for
+//   - the right-hand sides of selected assignments and the conditions of selected if / for
 //     statements, translated expression by expression into Gallina over Z with the wrap-around
 //     of Go's fixed-width integer types written out                    -> Exprs.v
+//
 // The committed files coq/tie/*.v prove that the hand-written model uses exactly these constants
 // and formulas; a change of the source changes the generated file and the proof no longer checks.
 //
@@ -31,13 +32,14 @@ import (
 )
 
 type Site struct {
-	Name string `json:"name"`
-	Pkg  string `json:"pkg"`
-	File string `json:"file"` // optional: base name of the file
-	Func string `json:"func"` // optional: regexp on the function name
-	Kind string `json:"kind"` // "assign" | "cond"
-	Re   string `json:"re"`   // regexp on the printed left-hand side / condition
-	Re2  string `json:"re2"`  // kind switch: regexp on the variable assigned inside the clauses
+	Name    string            `json:"name"`
+	Pkg     string            `json:"pkg"`
+	File    string            `json:"file"`    // optional: base name of the file
+	Func    string            `json:"func"`    // optional: regexp on the function name
+	Kind    string            `json:"kind"`    // "assign" | "cond"
+	Re      string            `json:"re"`      // regexp on the printed left-hand side / condition
+	Re2     string            `json:"re2"`     // kind switch: regexp on the variable assigned inside the clauses
+	Oracles map[string]string `json:"oracles"` // kind func: Go expressions that become extra parameters
 }
 
 type Spec struct {
@@ -599,6 +601,12 @@ func main() {
 	sitesReport := map[string]int{}
 	for _, s := range spec.Sites {
 		p := get(s.Pkg)
+		if s.Kind == "func" {
+			fmt.Fprintf(&b, "(* site %s: whole function %s of %s *)\n%s\n", s.Name, s.Func, s.Pkg, translateFunc(p, s))
+			sitesReport[s.Name] = 1
+			nsites++
+			continue
+		}
 		if s.Kind == "switch" {
 			tabs := collectSwitch(p, s)
 			sitesReport[s.Name] = len(tabs)
